@@ -275,9 +275,9 @@ V("C18", "h5-position-plus-n", "mdtraj/formats/hdf5.py", "        self._frame_in
 V("C18", "nc-unbounded-again", "mdtraj/formats/netcdf.py", "        self._frame_index = frame_stop\n", "        self._frame_index = self._frame_index + min(n_frames, total_n_frames)\n",
   "C18-R2", "NetCDFTrajectoryFile.read")
 V("C18", "mdcrd-increment-before-eof-check", "mdtraj/formats/mdcrd.py", '        "Read a single frame"\n        i = 0', '        "Read a single frame"\n        self._frame_index += 1\n        i = 0',
-  "C18-R3", "MDCRDTrajectoryFile._read")
+  "C18-R3", "MDCRDTrajectoryFile.read")
 V("C18", "xyz-increment-before-parse", "mdtraj/formats/xyzfile.py", "        self._fh.readline()  # Comment line.\n        self._line_counter += 2",
-  "        self._fh.readline()  # Comment line.\n        self._line_counter += 2\n        self._frame_index += 1", "C18-R3", "XYZTrajectoryFile._read")
+  "        self._fh.readline()  # Comment line.\n        self._line_counter += 2\n        self._frame_index += 1", "C18-R3", "XYZTrajectoryFile.read")
 V("C18", "xtc-counter-counts-failed-read", "mdtraj/formats/xtc/xtc.pyx", "            self.frame_counter += len(xyz)", "            self.frame_counter += n_read_frames",
   "C18-R3", "XTCTrajectoryFile._read")
 V("C18", "lammps-reopen-forgets-frame-index", "mdtraj/formats/lammpstrj.py", "                self._fh = open(self._filename)\n                self._frame_index = 0\n",
